@@ -199,7 +199,7 @@ def enum_sigs(max_named: int) -> List[dict]:
                     for vk in (False, True):
                         for nd in range(0, npo + npk + 1):  # defaults form a suffix of the positional params
                             for kod in itertools.product((False, True), repeat=nko):
-                                pos = [f"p{i}" for i in range(npo)] + ["a", "b", "c", "d", "e"][:npk]
+                                pos = [f"p{i}" for i in range(npo)] + ["a", "type", "c", "match", "e"][:npk]  # incl. soft keywords: legal identifiers
                                 dfl = [None] * (len(pos) - nd) + [1000 + i for i in range(nd)]
                                 params = list(zip(pos, dfl))
                                 sigs.append({
